@@ -671,13 +671,17 @@ protected:
     RLBOX_ACQUIRE_UNIQUE_GUARD(lock, table_lock);
     n_unregs++;
     for (size_t i = (size_t)first_slot; i < table.size(); i++) {
-      if (table[i].kind == 2 && table[i].key == key) {
+      // entries are kept per guest signature (as plug-ins with one trampoline pool per signature do): a request made
+      // with another signature than the registration's does not find the entry
+      if (table[i].kind == 2 && table[i].key == key && table[i].sig == &sim::sigtag<T_Ret(T_Args...)>::c) {
         table[i] = Entry();
         sim::bev("backend unregister inst=%d entry %zu", inst_id, i);
         return;
       }
     }
     sim::bev("backend unregister inst=%d key not found", inst_id);
+    if (sim::g_ctx)
+      sim::g_ctx->probe("backend_unregister_request_matched_nothing");
   }
 
   template<typename T>
